@@ -365,6 +365,7 @@ Theorem C03_all_encoders_classified :
     match ef_class f with
     | EDelegating | EContainer | EHeader => True
     | EPrelude => In (ef_type f) c03_enc_prelude_proved
+    | ETwinDeleg => True
     | ETwin => In (ef_type f) c03_enc_twin_proved \/ In (ef_type f) c03_enc_twin_explored
     | ESeparate => In (ef_type f) c03_enc_separate_proved \/ In (ef_type f) c03_enc_separate_explored
     end.
@@ -603,6 +604,14 @@ Theorem C03_pfx_enc_agree : forall nm size fixed kids, agree_list kids = true ->
   agree (ELeaf (pfx_enc_w nm size fixed kids) (pfx_enc_sw nm size fixed kids)) = true.
 Proof. exact (fun nm s f k H => conj (pfx_enc_agree nm s f k H) (pfx_leaf_agrees nm s f k H)). Qed.
 Print Assumptions C03_pfx_enc_agree.
+
+(* HvcCBox / Av1CBox (class ETwinDeleg: the same text twice, a header and ONE inner Encode / EncodeSW of a concrete type whose Encode is
+   the delegation pattern - hevc.DecConfRec, av1.CodecConfRec): equal bytes provided the record's Size() covers what its EncodeSW writes *)
+Theorem C03_confrec_enc_agree : forall hdr isize cap out,
+  (forall bs, out = Some bs -> (N.of_nat (length bs) <= isize)%N /\ (N.of_nat (length bs) <= cap)%N) ->
+  confrec_enc_w hdr isize out = confrec_enc_sw hdr cap out.
+Proof. exact confrec_enc_agree. Qed.
+Print Assumptions C03_confrec_enc_agree.
 
 (* ---- non-vacuity ---- *)
 Example ex_tree : ebox :=
